@@ -10,6 +10,12 @@ import json
 PKG = "vp"
 
 
+def pkg_of(prog, mi, base=None):
+    """Package name of module mi: the main package, or its sibling <base>q for modules of the second package."""
+    base = base or PKG
+    return base + "q" if (prog.get("pkg") or [0] * len(prog["modules"]))[mi] else base
+
+
 # ----------------------------------------------------------------------------- generation
 
 def gen_program(rng, features=None, n_nodes=None, n_modules=None):
@@ -17,6 +23,10 @@ def gen_program(rng, features=None, n_nodes=None, n_modules=None):
     n_modules = n_modules or rng.choice([1, 2, 2, 3])
     n_nodes = n_nodes or rng.randrange(3, 9)
     mods = ["m%d" % i for i in range(n_modules)]
+    pkg = [0] * n_modules
+    if n_modules >= 2 and rng.random() < F.get("p_two_packages", 0.0):
+        for mi in range(rng.randrange(1, n_modules), n_modules):
+            pkg[mi] = 1      # the highest modules form a second package: imported by the first, never the reverse
     glob = []
     for gi in range(rng.randrange(1, 4)):
         kind = rng.choice(["int", "list", "dict", "str", "float", "bool", "none"])
@@ -51,11 +61,19 @@ def gen_program(rng, features=None, n_nodes=None, n_modules=None):
         if rng.random() < F.get("p_recur", 0.15):
             nd["recur"] = True
         for g in glob:
-            if g["module"] >= mod and rng.random() < 0.35:
+            if g["module"] >= mod and pkg[g["module"]] == pkg[mod] and rng.random() < 0.35:
                 nd["globals"].append(g["id"])
+        if pkg[mod] == 1 and kind == "plain":
+            # a plain helper of the second package: code outside the caller's package is not tracked, so it is a
+            # frozen leaf (no calls, no globals, never edited)
+            nd["frozen"] = True
+            nd["globals"] = []
+            nd["recur"] = False
         nodes.append(nd)
     # call edges: i -> j with j > i and module(j) >= module(i)
     for i, nd in enumerate(nodes):
+        if nd.get("frozen"):
+            continue
         for j in range(i + 1, n_nodes):
             tj = nodes[j]
             if tj["module"] < nd["module"]:
@@ -68,7 +86,12 @@ def gen_program(rng, features=None, n_nodes=None, n_modules=None):
                 if tj["kind"] == "memento" and nd["explicit"] is None and r > 1 - F.get("p_hidden", 0.1):
                     form = "hidden"
                 nd["calls"].append({"to": j, "form": form})
-    prog = {"modules": mods, "nodes": nodes, "globals": glob, "order": {}}
+    # a nested scope may bind, as its own parameter / loop variable, the very name the outer body calls
+    for nd in nodes:
+        bare = [c["to"] for c in nd["calls"] if c["form"] == "bare"]
+        if nd["nested"] is not None and bare and rng.random() < F.get("p_shadow", 0.25):
+            nd["shadow"] = bare[rng.randrange(len(bare))]
+    prog = {"modules": mods, "pkg": pkg, "nodes": nodes, "globals": glob, "order": {}}
     for mi in range(n_modules):
         prog["order"][str(mi)] = default_order(prog, mi)
     return prog
@@ -131,10 +154,13 @@ def mod_alias(mi):
     return "a%d" % mi
 
 
-def header(prog, mi):
+def header(prog, mi, base=None):
     lines = ["import twosigma.memento as m"]
     for mj in range(mi + 1, len(prog["modules"])):
-        lines.append("from . import %s as %s" % (prog["modules"][mj], mod_alias(mj)))
+        if pkg_of(prog, mj) == pkg_of(prog, mi):
+            lines.append("from . import %s as %s" % (prog["modules"][mj], mod_alias(mj)))
+        else:
+            lines.append("from %sq import %s as %s" % (base or PKG, prog["modules"][mj], mod_alias(mj)))
     return "\n".join(lines) + "\n"
 
 
@@ -159,8 +185,9 @@ def call_expr(prog, nd, c):
     if c["form"] == "hidden":
         if t["module"] == nd["module"]:
             return 'globals()["%s"](x)' % t["name"]
-        return 'getattr(__import__("sys").modules[__name__.rsplit(".", 1)[0] + ".%s"], "%s")(x)' % (
-            prog["modules"][t["module"]], t["name"])
+        suffix = "" if pkg_of(prog, t["module"]) == pkg_of(prog, nd["module"]) else "q"
+        return 'getattr(__import__("sys").modules[__name__.rsplit(".", 1)[0] + "%s.%s"], "%s")(x)' % (
+            suffix, prog["modules"][t["module"]], t["name"])
     raise ValueError(c)
 
 
@@ -187,6 +214,10 @@ def layout(prog, nid):
     if nd["recur"]:
         lab.append("recur")
     return lab
+
+
+def nodes_name(prog, nid):
+    return prog["nodes"][nid]["name"] if nid is not None and nid < len(prog["nodes"]) else None
 
 
 def render_node(prog, nid, decorator="m.memento_function"):
@@ -216,15 +247,23 @@ def render_node(prog, nid, decorator="m.memento_function"):
         items.append("k")
     if nd["nested"] is not None:
         nk = nd["nestkind"]
+        sh = nd.get("shadow")
+        if sh is not None and not any(c["to"] == sh and c["form"] == "bare" for c in nd["calls"]):
+            sh = None   # only shadow a name the outer body really refers to (otherwise the name is just a parameter name)
+        v = nodes_name(prog, sh) if sh is not None else None
         if nk == "lambda":
-            items.append("(lambda: %d)()" % nd["nested"])
+            items.append("(lambda %s: %s)(%d)" % (v, v, nd["nested"]) if v else "(lambda: %d)()" % nd["nested"])
         elif nk == "listcomp":
-            items.append("[i + %d for i in (1,)]" % nd["nested"])
+            items.append("[%s + %d for %s in (1,)]" % (v or "i", nd["nested"], v or "i"))
         elif nk == "genexp":
-            items.append("sum(i + %d for i in (1,))" % nd["nested"])
+            items.append("sum(%s + %d for %s in (1,))" % (v or "i", nd["nested"], v or "i"))
         else:
-            lines.append("    def inner():")
-            lines.append("        return %d" % nd["nested"])
+            if v:
+                lines.append("    def inner(%s=%d):" % (v, nd["nested"]))
+                lines.append("        return %s" % v)
+            else:
+                lines.append("    def inner():")
+                lines.append("        return %d" % nd["nested"])
             items.append("inner()")
     if nd["setc"] is not None:
         items.append('("s%d" if "s%d" in {"s%d", "t"} else "no")' % (nd["setc"], nd["setc"], nd["setc"]))
@@ -252,7 +291,7 @@ def render_unit(prog, u):
     return render_alias(prog, u[1])
 
 
-def render_module(prog, mi, order=None):
+def render_module(prog, mi, order=None, base=None):
     order = order or prog["order"][str(mi)]
     # units added by edits after the order was fixed go last
     known = [tuple(u) for u in order]
@@ -263,7 +302,7 @@ def render_module(prog, mi, order=None):
             else:
                 known.append(u)
     live = set(units_of(prog, mi))
-    parts = [header(prog, mi)]
+    parts = [header(prog, mi, base)]
     for u in known:
         if u in live:
             parts.append(render_unit(prog, u))
@@ -272,13 +311,15 @@ def render_module(prog, mi, order=None):
 
 def write_package(prog, srcdir, pkg=None, orders=None):
     import os
-    d = os.path.join(srcdir, pkg or PKG)
-    os.makedirs(d, exist_ok=True)
-    with open(os.path.join(d, "__init__.py"), "w") as f:
-        f.write("")
+    base = pkg or PKG
     for mi, name in enumerate(prog["modules"]):
+        d = os.path.join(srcdir, pkg_of(prog, mi, base))
+        os.makedirs(d, exist_ok=True)
+        init = os.path.join(d, "__init__.py")
+        if not os.path.exists(init):
+            open(init, "w").close()
         with open(os.path.join(d, name + ".py"), "w") as f:
-            f.write(render_module(prog, mi, order=(orders or {}).get(str(mi))))
+            f.write(render_module(prog, mi, order=(orders or {}).get(str(mi)), base=base))
 
 
 # ----------------------------------------------------------------------------- reference semantics
@@ -423,6 +464,8 @@ def gen_edit(rng, prog, counter, weights=None):
     for _ in range(20):
         kind = rng.choices(EDIT_KINDS, weights or [4, 2, 2, 1, 1, 3, 3, 3, 1.5, 1.5, 1, 1, 0.5, 1, 0.7, 0.3])[0]
         nd = nodes[rng.randrange(len(nodes))]
+        if nd.get("frozen") or (kind in ("swap_kind", "insert_helper", "toggle_recur") and (prog.get("pkg") or [0])[min(nd["module"], len(prog.get("pkg") or [0]) - 1)]):
+            continue
         v = counter + 2
         if kind in ("const",):
             return {"kind": kind, "node": nd["id"], "value": v}
@@ -438,7 +481,8 @@ def gen_edit(rng, prog, counter, weights=None):
         if kind == "add_edge":
             cands = [(a["id"], b["id"]) for a in nodes for b in nodes
                      if b["id"] > a["id"] and b["module"] >= a["module"] and not any(c["to"] == b["id"] for c in a["calls"])
-                     and not reaches(prog, b["id"], a["id"])]
+                     and not reaches(prog, b["id"], a["id"]) and not a.get("frozen")
+                     and (pkg_of(prog, a["module"]) == pkg_of(prog, b["module"]) or b["kind"] == "memento" or b.get("frozen"))]
             if not cands:
                 continue
             a, b = cands[rng.randrange(len(cands))]
@@ -454,7 +498,8 @@ def gen_edit(rng, prog, counter, weights=None):
             if kind == "del_edge":
                 return {"kind": "del_edge", "node": a, "to": b}
             new = [t["id"] for t in nodes if t["id"] > a and t["module"] >= nodes[a]["module"]
-                   and not any(c["to"] == t["id"] for c in nodes[a]["calls"]) and not reaches(prog, t["id"], a)]
+                   and not any(c["to"] == t["id"] for c in nodes[a]["calls"]) and not reaches(prog, t["id"], a)
+                   and (pkg_of(prog, nodes[a]["module"]) == pkg_of(prog, t["module"]) or t["kind"] == "memento" or t.get("frozen"))]
             if not new:
                 continue
             t = new[rng.randrange(len(new))]
@@ -473,7 +518,8 @@ def gen_edit(rng, prog, counter, weights=None):
         if kind == "toggle_recur":
             return {"kind": "toggle_recur", "node": nd["id"], "value": not nd["recur"]}
         if kind == "insert_helper":
-            cands = [(a["id"], c["to"]) for a in nodes for c in a["calls"] if c["form"] in ("bare", "attr")]
+            cands = [(a["id"], c["to"]) for a in nodes for c in a["calls"] if c["form"] in ("bare", "attr")
+                     and pkg_of(prog, a["module"]) == PKG and pkg_of(prog, nodes[c["to"]]["module"]) == PKG]
             if not cands or len(nodes) >= 10:
                 continue
             a, b = cands[rng.randrange(len(cands))]
